@@ -991,7 +991,11 @@ func genC14(g *Gen) {
 				vl = []int{3000, 5000, 9000}[g.R.Intn(3)]
 				long++
 			}
-			kvs = append(kvs, Ls(Str(fmt.Sprintf("key-%d-%d", j, g.R.Intn(1000))), str(vl)))
+			var val V = str(vl)
+			if vl > 100 {
+				val = PatV(g.R.Intn(250), vl)
+			}
+			kvs = append(kvs, Ls(Str(fmt.Sprintf("key-%d-%d", j, g.R.Intn(1000))), val))
 		}
 		if g.R.Intn(3) == 0 { // the ACL token travels in its own info block (even position: a string key)
 			tok := Ls(Str(ttheader.GDPRToken), str(1+g.R.Intn(60)))
@@ -1111,10 +1115,10 @@ func genC14(g *Gen) {
 	for i := 0; i < g.Scale(150, 1200); i++ {
 		G := []int{2, 4, 8, 16}[g.R.Intn(4)]
 		R := 3 + g.R.Intn(g.Scale(25, 60))
-		// every fourth case: all goroutines run the pool-heavy cycles (big skip decoders, retaining
+		// every fifth case: all goroutines run the pool-heavy cycles (big skip decoders, retaining
 		// readers, stream-decoded headers/codecs) over the same size classes
-		focus := i%4 == 1
-		huge := i%24 == 5
+		focus := i%5 == 1
+		huge := i%30 == 6
 		if focus {
 			R = 2 + g.R.Intn(g.Scale(6, 12))
 		}
@@ -1139,6 +1143,10 @@ func genC14(g *Gen) {
 					nbig++
 					s = append(s, bigskip(huge && k < 3 && j == 1))
 				case 10:
+					if !focus && g.R.Intn(2) == 0 {
+						s = append(s, lib[g.R.Intn(len(lib))])
+						break
+					}
 					s = append(s, retain())
 				case 11:
 					if g.R.Intn(2) == 0 {
